@@ -11,7 +11,7 @@ REFS = {
     'mystic.math.measures:impose_product':
         'def impose_product(mass, weights, zsum=False, zmass=1.0):\n    from numpy import prod as product\n    weights = asarray(list(weights))\n    w = float(product(weights))\n    n = len(weights)\n    if not w:\n        from numpy import inf\n        return list(weights * inf)\n    if float(mass):\n        if w / mass < 0.0:\n            return list(-weights / (-w / mass) ** (1.0 / n))\n        return list(weights / (w / mass) ** (1.0 / n))\n    if not zsum:\n        return list(weights * 0.0)\n    zsum = -1\n    p, weights[zsum] = (weights[zsum], 0.0)\n    w = w / p\n    n = n - 1\n    mass = zmass\n    if w / mass >= 0.0:\n        return list(weights[:-1] / (w / mass) ** (1.0 / n)) + [0.0]\n    return list(-weights[:-1] / (-w / mass) ** (1.0 / n)) + [0.0]\n',
     'mystic.math.distance:Lnorm':
-        "def Lnorm(weights, p=1, axis=None):\n    from numpy import asarray, seterr, inf, abs, max, sum, expand_dims\n    weights = asarray(weights, dtype=float)\n    if not p:\n        w = sum(weights != 0.0, dtype=float, axis=axis)\n    elif p == inf:\n        w = max(abs(weights), axis=axis)\n    elif p == -inf:\n        w = min(abs(weights), axis=axis)\n    else:\n        orig = seterr(over='raise', invalid='raise')\n        try:\n            w = sum(abs(weights ** p), axis=axis) ** (1.0 / p)\n        except FloatingPointError:\n            w = max(abs(weights), axis=axis)\n        seterr(**orig)\n    return w if axis is None or not w.shape else expand_dims(w, axis=axis)\n",
+        "def Lnorm(weights, p=1, axis=None):\n    from numpy import asarray, seterr, inf, abs, max, sum, expand_dims\n    weights = asarray(weights, dtype=float)\n    if not p:\n        w = sum(weights != 0.0, dtype=float, axis=axis)\n    elif p == inf:\n        w = max(abs(weights), axis=axis)\n    elif p == -inf:\n        w = min(abs(weights), axis=axis)\n    else:\n        orig = seterr(over='raise', invalid='raise')\n        try:\n            w = sum(abs(weights) ** p, axis=axis) ** (1.0 / p)\n        except FloatingPointError:\n            w = max(abs(weights), axis=axis)\n        seterr(**orig)\n    return w if axis is None or not w.shape else expand_dims(w, axis=axis)\n",
     'mystic.math.distance:chebyshev':
         'def chebyshev(x, xp=None, pair=False, dmin=0, axis=None):\n    d = absolute_distance(x, xp, pair=pair, dmin=dmin)\n    return d.max(axis=axis).astype(float)\n',
     'mystic.math.distance:hamming':
